@@ -852,6 +852,8 @@ def run(ctx) -> None:
     from .c08 import r08_8
     from .c06 import r06_4
     ctx.guard_as("R02.11", r08_8)  # "any change to the encrypted key yields an error": key-wrap primitive shapes (GCM-KW finalises with the tag)
-    ctx.guard_as("R02.11", r06_4)  # "a wrong recipient key yields an error": dir uses the whole key of exactly the CEK size
+    ctx.guard_as("R02.11", r06_4)
+    from .c04 import r04_2
+    ctx.guard_as("R02.13", r04_2)  # "the received protected header": zip is honoured from the integrity-protected position only  # "a wrong recipient key yields an error": dir uses the whole key of exactly the CEK size
     ctx.assume("AEAD soundness and point validation inside pyca/cryptography and pycryptodome")
     ctx.assume("GCM tags of a length other than 16 octets are refused by pyca (ValueError), probed in DESIGN B7")
